@@ -1,5 +1,8 @@
 //! trampoline-mc: exhaustive bounded exploration of the real breez/trampoline
 //! code (compiled in by path) under an environment the checker owns.
+//!
+//! usage: check <ID> [--tier quick|thorough]      decide one property
+//!        check replay <file>                      re-run one recorded history / input, no search
 #![allow(dead_code, unused_imports, unused_variables, clippy::all)]
 
 // The subject's crate root defines this alias; `crate::Error` is used by cln_plugin.
@@ -16,72 +19,582 @@ pub mod explore;
 pub mod scen;
 pub mod sched;
 pub mod sim;
+pub mod suite;
 
-use std::time::{Duration, Instant};
+use std::{
+    collections::BTreeMap,
+    sync::Mutex,
+    time::{Duration, Instant},
+};
+
+use explore::{Found, Limits, Model, Violation};
+use serde_json::{json, Value};
+use suite::Job;
+
+pub struct FoundAny {
+    pub violation: Violation,
+    pub cost: u32,
+    pub replay: Value,
+}
+
+#[derive(Default)]
+pub struct JobResult {
+    pub name: String,
+    pub engine: String,
+    pub bound: u32,
+    pub states: u64,
+    pub transitions: u64,
+    pub runs: u64,
+    pub distinct_outcomes: u64,
+    pub nontrivial_outcomes: u64,
+    pub level_completed: i32,
+    pub capped: bool,
+    pub depth_capped: u64,
+    pub rechecks: u64,
+    pub evaluations: u64,
+    pub nontrivial: u64,
+    pub found: Vec<FoundAny>,
+    pub samples: Vec<Value>,
+    pub error: Option<String>,
+    pub rule: Option<String>,
+    pub exhaustive: bool,
+    pub extra: BTreeMap<String, Value>,
+}
+
+pub type OtherResult = JobResult;
+
+const VERIF: &str = "/verif";
+
+fn from_explore<M: Model>(name: String, engine: &str, bound: u32, out: explore::Outcome) -> JobResult {
+    let mut r = JobResult {
+        name: name.clone(),
+        engine: engine.to_string(),
+        bound,
+        states: out.stats.states,
+        transitions: out.stats.transitions_new,
+        runs: out.stats.runs,
+        distinct_outcomes: out.stats.distinct_outcomes,
+        nontrivial_outcomes: out.stats.nontrivial_outcomes,
+        level_completed: out.stats.level_completed,
+        capped: out.stats.time_capped,
+        depth_capped: out.stats.depth_capped_runs,
+        rechecks: out.stats.determinism_rechecks,
+        error: out.error,
+        exhaustive: !out.stats.time_capped && out.stats.depth_capped_runs == 0,
+        ..Default::default()
+    };
+    for f in out.found {
+        r.found.push(FoundAny {
+            cost: f.cost,
+            replay: json!({"engine": engine, "scenario": name, "labels": f.labels, "log": f.log, "deviations": f.cost}),
+            violation: f.violation,
+        });
+    }
+    for (labels, log) in out.samples.into_iter().take(2) {
+        r.samples.push(json!({"scenario": name, "history": labels, "observations": log.into_iter().take(60).collect::<Vec<_>>()}));
+    }
+    r
+}
+
+fn run_job(job: &Job, thorough: bool, threads: usize, deadline: Instant, seed: u64) -> JobResult {
+    let limits = Limits {
+        max_depth: 120,
+        deadline,
+        threads,
+        recheck_every: 40 + (seed % 17),
+        max_states: 60_000_000,
+    };
+    match job {
+        Job::W { cfg, bound, .. } => from_explore::<engine_w::W>(cfg.name.clone(), "W", *bound, explore::explore::<engine_w::W>(cfg, *bound, &limits)),
+        Job::P { cfg, bound } => from_explore::<engine_p::P>(cfg.name.clone(), "P", *bound, explore::explore::<engine_p::P>(cfg, *bound, &limits)),
+        Job::I { name, run } => {
+            let rep = run(thorough, threads);
+            let mut r = JobResult {
+                name: name.to_string(),
+                engine: "I".into(),
+                evaluations: rep.evaluations,
+                nontrivial: rep.distinct_nontrivial,
+                rule: Some(rep.rule),
+                samples: rep.samples,
+                exhaustive: rep.exhaustive,
+                level_completed: 0,
+                ..Default::default()
+            };
+            for (v, input) in rep.found {
+                r.found.push(FoundAny {
+                    violation: v,
+                    cost: 0,
+                    replay: json!({"engine": "I", "scenario": name, "input": input}),
+                });
+            }
+            r
+        }
+        Job::Other { name, run } => run(thorough, threads, name),
+    }
+}
+
+fn load_known() -> Vec<Value> {
+    let p = format!("{}/known_findings.json", VERIF);
+    match std::fs::read_to_string(&p) {
+        Ok(s) => serde_json::from_str::<Value>(&s)
+            .ok()
+            .and_then(|v| v.get("findings").and_then(|f| f.as_array()).cloned())
+            .unwrap_or_default(),
+        Err(_) => Vec::new(),
+    }
+}
+
+fn level_of(id: &str) -> &'static str {
+    match id {
+        "C09" => "fault_enumeration",
+        "C10" | "C12" | "C13" | "C18" | "C19" => "exploration",
+        _ => "model_checking",
+    }
+}
+
+fn fnv(s: &str) -> u64 {
+    let mut h: u64 = 0xcbf29ce484222325;
+    for b in s.bytes() {
+        h ^= b as u64;
+        h = h.wrapping_mul(0x100000001b3);
+    }
+    h
+}
+
+fn run_check(id: &str, thorough: bool) -> i32 {
+    let t0 = Instant::now();
+    let seed: u64 = std::env::var("VERIF_SEED").ok().and_then(|s| s.parse().ok()).unwrap_or(0);
+    let jobs = suite::jobs(id, thorough);
+    if jobs.is_empty() {
+        eprintln!("no check registered for {}", id);
+        return 2;
+    }
+    let mut results = run_jobs(&jobs, thorough, t0, seed);
+    if matches!(id, "C03" | "C06" | "C12") && engine_i::overflow_checks_on() {
+        // the same jobs in the build without overflow checks (release semantics)
+        match run_sub(id, thorough) {
+            Ok(mut more) => results.append(&mut more),
+            Err(e) => {
+                eprintln!("MACHINERY ERROR wrapping-build run: {}", e);
+                return 2;
+            }
+        }
+    }
+
+    results.sort_by(|a, b| a.name.cmp(&b.name));
+
+    // machinery errors are never verdicts
+    let errors: Vec<String> = results.iter().filter_map(|r| r.error.as_ref().map(|e| format!("{}: {}", r.name, e))).collect();
+    if !errors.is_empty() {
+        for e in &errors {
+            eprintln!("MACHINERY ERROR {}", e);
+        }
+        return 2;
+    }
+
+    // merge findings for this property by signature (cheapest first)
+    let mut merged: BTreeMap<String, (&FoundAny, String)> = BTreeMap::new();
+    for r in &results {
+        for f in &r.found {
+            if f.violation.property != id {
+                continue;
+            }
+            let sig = f.violation.signature();
+            let better = match merged.get(&sig) {
+                None => true,
+                Some((g, _)) => f.cost < g.cost,
+            };
+            if better {
+                merged.insert(sig, (f, r.name.clone()));
+            }
+        }
+    }
+    let known = load_known();
+    let mut violations = 0;
+    let mut known_hits: Vec<String> = Vec::new();
+    let _ = std::fs::create_dir_all(format!("{}/replays", VERIF));
+    let mut viol_lines = Vec::new();
+    for (sig, (f, scen_name)) in &merged {
+        let k = known.iter().find(|k| {
+            k.get("status").and_then(|s| s.as_str()) == Some("open") && k.get("signature").and_then(|s| s.as_str()) == Some(sig.as_str())
+        });
+        if let Some(k) = k {
+            let what = k.get("what").and_then(|w| w.as_str()).unwrap_or(sig);
+            println!("KNOWN-FINDING: property={} {}", id, what);
+            known_hits.push(sig.clone());
+            continue;
+        }
+        violations += 1;
+        let path = format!("{}/replays/{}-{:016x}.json", VERIF, id, fnv(sig));
+        let mut doc = f.replay.clone();
+        doc["property"] = json!(id);
+        doc["signature"] = json!(sig);
+        doc["clause"] = json!(f.violation.clause);
+        doc["what"] = json!(f.violation.shape);
+        doc["detail"] = json!(f.violation.detail);
+        let _ = std::fs::write(&path, serde_json::to_string_pretty(&doc).unwrap());
+        viol_lines.push(format!("VIOLATION property={} replay={}", id, path));
+        eprintln!("  {} [{}] {} :: {}", sig, scen_name, f.cost, trunc(&f.violation.detail, 300));
+    }
+
+    // evidence
+    let level = level_of(id);
+    let states: u64 = results.iter().map(|r| r.states).sum();
+    let transitions: u64 = results.iter().map(|r| r.transitions).sum();
+    let runs: u64 = results.iter().map(|r| r.runs).sum();
+    let evals: u64 = results.iter().map(|r| r.evaluations).sum::<u64>() + runs;
+    let distinct: u64 = results.iter().map(|r| r.distinct_outcomes + r.nontrivial).sum();
+    let nontrivial_runs: u64 = results.iter().map(|r| r.nontrivial_outcomes).sum();
+    let capped: Vec<String> = results.iter().filter(|r| r.capped || r.depth_capped > 0).map(|r| format!("{} (level completed {})", r.name, r.level_completed)).collect();
+    let min_level = results.iter().filter(|r| r.engine != "I").map(|r| r.level_completed).min();
+    let mut samples: Vec<Value> = Vec::new();
+    let pick = (seed as usize) % results.len().max(1);
+    for (i, r) in results.iter().cycle().skip(pick).take(results.len()).enumerate() {
+        if samples.len() >= 3 {
+            break;
+        }
+        if let Some(s) = r.samples.first() {
+            samples.push(s.clone());
+        }
+        let _ = i;
+    }
+    if samples.is_empty() {
+        samples.push(json!({"note": "no sample recorded"}));
+    }
+    let per_job: Vec<Value> = results
+        .iter()
+        .map(|r| {
+            json!({
+                "scenario": r.name, "engine": r.engine, "deviation_bound": r.bound, "level_completed": r.level_completed,
+                "states": r.states, "transitions": r.transitions, "histories": r.runs, "distinct_outcomes": r.distinct_outcomes,
+                "evaluations": r.evaluations, "capped": r.capped, "depth_capped_runs": r.depth_capped, "extra": r.extra,
+            })
+        })
+        .collect();
+    let rules: Vec<String> = results.iter().filter_map(|r| r.rule.clone()).collect();
+    let w_rule = "engine W/P: every history with at most `deviation_bound` departures from the default environment answer (reordered RPC answers and deliveries, part failures, every pay ending contract A1 allows, time steps on either side of each deadline, block events, write/read faults, whole-node crashes with every applied/lost flavour), each run to the drained end on the real code compiled from /repo/src; a history is distinct when its complete observation log differs";
+    let mut coverage = json!({
+        "states": states.max(0),
+        "transitions": transitions,
+        "traces_validated_against_impl": runs,
+        "impl_executions": runs,
+        "evaluations": evals,
+        "distinct_nontrivial": if level == "fault_enumeration" { nontrivial_runs } else { distinct },
+        "distinct_outcomes": distinct,
+        "histories_with_crash_or_fault": nontrivial_runs,
+        "rule": if rules.is_empty() { w_rule.to_string() } else { format!("{} || {}", rules.join(" || "), if runs > 0 { w_rule } else { "" }) },
+        "samples": samples,
+        "exhaustive": capped.is_empty(),
+        "caps_hit": capped,
+        "deviation_level_completed_min": min_level,
+        "determinism_rechecks": results.iter().map(|r| r.rechecks).sum::<u64>(),
+        "jobs": per_job,
+        "known_findings_reproduced": known_hits,
+        "explanation": "There is no separate model of the plugin: every counted transition is an execution of the implementation compiled from /repo/src (by #[path]) under the controlled scheduler; `traces_validated_against_impl` therefore equals the number of complete histories executed. Only the environment (SimNode) is modelled.",
+    });
+    if states == 0 {
+        // pure input enumeration: drop the model-checking keys so that the generic keys apply
+        coverage.as_object_mut().unwrap().remove("states");
+        coverage.as_object_mut().unwrap().remove("transitions");
+        coverage.as_object_mut().unwrap().remove("traces_validated_against_impl");
+    }
+    let evidence = json!({
+        "property_id": id,
+        "tier": if thorough { "thorough" } else { "quick" },
+        "seed": seed,
+        "level": level,
+        "coverage": coverage,
+        "assumptions": [
+            "A1-A5 of DESIGN.md section 2.4 (Core Lightning contract: pay endings vs parts, no new parts without a running pay, HTLC amount bounds, waitsendpay codes, finitely many faults)",
+            "tokio current-thread scheduling: plugin tasks interleave only at .await points; every shared access is under tokio::sync primitives",
+            "rustc / cargo; vendored tokio 1.38.0 with the select-hook patch (vendor/tokio.patch)"
+        ],
+        "wall_s": t0.elapsed().as_secs_f64(),
+        "violations": violations,
+    });
+    let _ = std::fs::create_dir_all(format!("{}/evidence", VERIF));
+    let _ = std::fs::write(format!("{}/evidence/{}.json", VERIF, id), serde_json::to_string_pretty(&evidence).unwrap());
+    println!(
+        "{} {}: jobs {} histories {} states {} transitions {} evaluations {} outcomes {} caps {} wall {:.1}s",
+        id,
+        if thorough { "thorough" } else { "quick" },
+        results.len(),
+        runs,
+        states,
+        transitions,
+        evals,
+        distinct,
+        capped.len(),
+        t0.elapsed().as_secs_f64()
+    );
+    for l in &viol_lines {
+        println!("{}", l);
+    }
+    if violations > 0 {
+        1
+    } else {
+        0
+    }
+}
+
+fn run_jobs(jobs: &[Job], thorough: bool, t0: Instant, seed: u64) -> Vec<JobResult> {
+    let cap = if thorough {
+        Duration::from_secs(std::env::var("VERIF_THOROUGH_CAP_S").ok().and_then(|s| s.parse().ok()).unwrap_or(2400))
+    } else {
+        Duration::from_secs(std::env::var("VERIF_QUICK_CAP_S").ok().and_then(|s| s.parse().ok()).unwrap_or(150))
+    };
+    let deadline = t0 + cap;
+    let ncpu = std::thread::available_parallelism().map(|n| n.get()).unwrap_or(8).min(16);
+    // small jobs: a pool of single-threaded explorers; big jobs: one after another on all cores
+    let (big, small): (Vec<&Job>, Vec<&Job>) = jobs.iter().partition(|j| matches!(j, Job::W { big: true, .. } | Job::I { .. } | Job::Other { .. }));
+    let results: Mutex<Vec<JobResult>> = Mutex::new(Vec::new());
+    {
+        let queue: Mutex<Vec<&Job>> = Mutex::new(small.into_iter().rev().collect());
+        std::thread::scope(|s| {
+            for _ in 0..ncpu {
+                s.spawn(|| loop {
+                    let j = queue.lock().unwrap().pop();
+                    match j {
+                        Some(j) => {
+                            let r = run_job(j, thorough, 1, deadline, seed);
+                            results.lock().unwrap().push(r);
+                        }
+                        None => return,
+                    }
+                });
+            }
+        });
+    }
+    for j in big {
+        let r = run_job(j, thorough, ncpu, deadline, seed);
+        results.lock().unwrap().push(r);
+    }
+    let results = results.into_inner().unwrap();
+
+    results
+}
+
+fn result_to_json(r: &JobResult) -> Value {
+    json!({
+        "name": r.name, "engine": r.engine, "bound": r.bound, "states": r.states, "transitions": r.transitions, "runs": r.runs,
+        "distinct_outcomes": r.distinct_outcomes, "nontrivial_outcomes": r.nontrivial_outcomes, "level_completed": r.level_completed,
+        "capped": r.capped, "depth_capped": r.depth_capped, "rechecks": r.rechecks, "evaluations": r.evaluations, "nontrivial": r.nontrivial,
+        "samples": r.samples, "error": r.error, "rule": r.rule, "exhaustive": r.exhaustive,
+        "found": r.found.iter().map(|f| json!({"property": f.violation.property, "clause": f.violation.clause, "shape": f.violation.shape, "detail": f.violation.detail, "cost": f.cost, "replay": f.replay})).collect::<Vec<_>>(),
+    })
+}
+
+fn leak(s: &str) -> &'static str {
+    Box::leak(s.to_string().into_boxed_str())
+}
+
+fn result_from_json(v: &Value) -> JobResult {
+    let mut r = JobResult {
+        name: format!("{} [wrapping build]", v["name"].as_str().unwrap_or("")),
+        engine: v["engine"].as_str().unwrap_or("").to_string(),
+        bound: v["bound"].as_u64().unwrap_or(0) as u32,
+        states: v["states"].as_u64().unwrap_or(0),
+        transitions: v["transitions"].as_u64().unwrap_or(0),
+        runs: v["runs"].as_u64().unwrap_or(0),
+        distinct_outcomes: v["distinct_outcomes"].as_u64().unwrap_or(0),
+        nontrivial_outcomes: v["nontrivial_outcomes"].as_u64().unwrap_or(0),
+        level_completed: v["level_completed"].as_i64().unwrap_or(0) as i32,
+        capped: v["capped"].as_bool().unwrap_or(false),
+        depth_capped: v["depth_capped"].as_u64().unwrap_or(0),
+        rechecks: v["rechecks"].as_u64().unwrap_or(0),
+        evaluations: v["evaluations"].as_u64().unwrap_or(0),
+        nontrivial: v["nontrivial"].as_u64().unwrap_or(0),
+        samples: v["samples"].as_array().cloned().unwrap_or_default(),
+        error: v["error"].as_str().map(|s| s.to_string()),
+        rule: v["rule"].as_str().map(|s| s.to_string()),
+        exhaustive: v["exhaustive"].as_bool().unwrap_or(false),
+        ..Default::default()
+    };
+    for f in v["found"].as_array().cloned().unwrap_or_default() {
+        let mut replay = f["replay"].clone();
+        replay["build"] = json!("wrapping (profile mcw)");
+        r.found.push(FoundAny {
+            violation: Violation {
+                property: leak(f["property"].as_str().unwrap_or("")),
+                clause: leak(f["clause"].as_str().unwrap_or("")),
+                shape: f["shape"].as_str().unwrap_or("").to_string(),
+                detail: f["detail"].as_str().unwrap_or("").to_string(),
+            },
+            cost: f["cost"].as_u64().unwrap_or(0) as u32,
+            replay,
+        });
+    }
+    r
+}
+
+/// Run the same job list in the sibling binary built without overflow checks.
+fn run_sub(id: &str, thorough: bool) -> Result<Vec<JobResult>, String> {
+    let exe = "/verif/.target/mcw/check";
+    let out = std::process::Command::new(exe)
+        .args(["__sub", id, if thorough { "thorough" } else { "quick" }])
+        .output()
+        .map_err(|e| format!("cannot run {}: {}", exe, e))?;
+    if !out.status.success() {
+        return Err(format!("{} failed: {}", exe, String::from_utf8_lossy(&out.stderr)));
+    }
+    let v: Value = serde_json::from_slice(&out.stdout).map_err(|e| format!("bad output from {}: {}", exe, e))?;
+    Ok(v.as_array().cloned().unwrap_or_default().iter().map(result_from_json).collect())
+}
+
+fn trunc(s: &str, n: usize) -> String {
+    s.chars().take(n).collect()
+}
+
+fn find_w_cfg(name: &str) -> Option<std::sync::Arc<engine_w::WCfg>> {
+    for id in suite::ALL_IDS {
+        for th in [false, true] {
+            for j in suite::jobs(id, th) {
+                if let Job::W { cfg, .. } = j {
+                    if cfg.name == name {
+                        // evaluate every oracle during a replay
+                        let mut c = (*cfg).clone();
+                        c.props = scen::ALL_W.iter().cloned().collect();
+                        return Some(std::sync::Arc::new(c));
+                    }
+                }
+            }
+        }
+    }
+    None
+}
+
+fn find_p_cfg(name: &str) -> Option<engine_p::PCfg> {
+    for id in ["C15", "C16"] {
+        for th in [false, true] {
+            for j in suite::jobs(id, th) {
+                if let Job::P { cfg, .. } = j {
+                    if cfg.name == name {
+                        return Some(cfg);
+                    }
+                }
+            }
+        }
+    }
+    None
+}
+
+fn run_replay(path: &str) -> i32 {
+    let doc: Value = match std::fs::read_to_string(path).ok().and_then(|s| serde_json::from_str(&s).ok()) {
+        Some(d) => d,
+        None => {
+            eprintln!("cannot read {}", path);
+            return 2;
+        }
+    };
+    let engine = doc["engine"].as_str().unwrap_or("");
+    let scenario = doc["scenario"].as_str().unwrap_or("");
+    let prop = doc["property"].as_str().unwrap_or("");
+    let labels: Vec<String> = doc["labels"].as_array().map(|a| a.iter().filter_map(|x| x.as_str().map(|s| s.to_string())).collect()).unwrap_or_default();
+    println!("replaying {} engine {} scenario {}", path, engine, scenario);
+    let (log, vs): (Vec<String>, Vec<Violation>) = match engine {
+        "W" => {
+            let cfg = match find_w_cfg(scenario) {
+                Some(c) => c,
+                None => {
+                    eprintln!("unknown scenario {}", scenario);
+                    return 2;
+                }
+            };
+            match explore::replay_labels::<engine_w::W>(&cfg, &labels, true) {
+                Ok(mut m) => (m.log(), m.take_violations()),
+                Err(e) => {
+                    eprintln!("{}", e);
+                    return 2;
+                }
+            }
+        }
+        "P" => {
+            let cfg = match find_p_cfg(scenario) {
+                Some(c) => c,
+                None => {
+                    eprintln!("unknown scenario {}", scenario);
+                    return 2;
+                }
+            };
+            match explore::replay_labels::<engine_p::P>(&cfg, &labels, true) {
+                Ok(mut m) => (m.log(), m.take_violations()),
+                Err(e) => {
+                    eprintln!("{}", e);
+                    return 2;
+                }
+            }
+        }
+        "I" => {
+            // inputs are re-evaluated by running the (fast) quick enumeration of that job and filtering by signature
+            let mut vs = Vec::new();
+            for id in suite::ALL_IDS {
+                for j in suite::jobs(id, false) {
+                    if let Job::I { name, run } = j {
+                        if name == scenario {
+                            let rep = run(false, 16);
+                            for (v, input) in rep.found {
+                                println!("  input {}", input);
+                                vs.push(v);
+                            }
+                        }
+                    }
+                }
+            }
+            (vec![format!("input {}", doc["input"])], vs)
+        }
+        _ => {
+            eprintln!("engine {:?} has its own replay entry", engine);
+            return 2;
+        }
+    };
+    for l in &log {
+        println!("  | {}", l);
+    }
+    let mut hit = false;
+    for v in &vs {
+        println!("  violation {} :: {}", v.signature(), trunc(&v.detail, 400));
+        if v.property == prop || prop.is_empty() {
+            hit = true;
+        }
+    }
+    if hit {
+        println!("reproduced");
+        1
+    } else {
+        println!("not reproduced on the current tree");
+        0
+    }
+}
 
 fn main() {
     std::env::remove_var("RUST_BACKTRACE");
     std::env::set_var("RUST_LIB_BACKTRACE", "0");
     sched::install_panic_hook();
     let args: Vec<String> = std::env::args().collect();
-    let bound: u32 = args.get(2).and_then(|s| s.parse().ok()).unwrap_or(1);
-    let limits = explore::Limits {
-        max_depth: 90,
-        deadline: Instant::now() + Duration::from_secs(600),
-        threads: 16,
-        recheck_every: 50,
-        max_states: 50_000_000,
-    };
-    let which = args.get(1).cloned().unwrap_or_default();
-    if which == "i12" || which == "i18" {
-        let rep = if which == "i12" { engine_i::c12_fee(false) } else { engine_i::c18(false, 16) };
-        println!("evals {} nontrivial {} found {}", rep.evaluations, rep.distinct_nontrivial, rep.found.len());
-        for f in &rep.found {
-            println!("  FOUND {} :: {}", f.0.signature(), &f.0.detail[..f.0.detail.len().min(300)]);
-        }
+    if args.len() < 2 {
+        eprintln!("usage: check <ID> [--tier quick|thorough] | check replay <file>");
+        std::process::exit(2);
+    }
+    if args[1] == "__sub" {
+        let id = args.get(2).cloned().unwrap_or_default();
+        let thorough = args.get(3).map(|t| t == "thorough").unwrap_or(false);
+        let seed: u64 = std::env::var("VERIF_SEED").ok().and_then(|s| s.parse().ok()).unwrap_or(0);
+        let jobs = suite::jobs(&id, thorough);
+        let res = run_jobs(&jobs, thorough, Instant::now(), seed);
+        println!("{}", Value::Array(res.iter().map(result_to_json).collect()));
         return;
     }
-    let cfgs = match which.as_str() {
-        "life" => vec![scen::with_props(scen::s_life("S-life/2htlc", true, false, false), scen::ALL_W)],
-        "life1" => vec![scen::with_props(scen::s_life("S-life/1htlc", false, false, true), scen::ALL_W)],
-        "c09" => {
-            let mut c = scen::s_life("S-life/1htlc/probe", false, false, false);
-            c.probe = true;
-            vec![scen::with_props(c, &["C09"])]
-        }
-        "hash" => vec![
-            scen::with_props(scen::s_hash(1, 1, false), scen::ALL_W),
-            scen::with_props(scen::s_hash(1, 2, false), scen::ALL_W),
-        ],
-        "hist" => ["none", "free", "pending-nopart", "pending-noattempt", "pending-pendingpart", "pending-failedpart", "pending-completepart", "succeeded"]
-            .iter()
-            .map(|k| scen::with_props(scen::s_hist(k, 0, false), scen::ALL_W))
-            .collect(),
-        _ => vec![],
-    };
-    if args.get(3).map(|s| s == "-e").unwrap_or(false) {
-        use explore::Model;
-        let mut w = engine_w::W::new(&cfgs[0]);
-        for _ in 0..6 {
-            let en = w.enabled();
-            println!("{:?}", en.iter().map(|c| format!("{}:{}", c.label, c.cost)).collect::<Vec<_>>());
-            w.apply(0);
-        }
-        return;
+    if args[1] == "replay" {
+        std::process::exit(run_replay(args.get(2).map(|s| s.as_str()).unwrap_or("")));
     }
-    for cfg in cfgs {
-        let out = explore::explore::<engine_w::W>(&cfg, bound, &limits);
-        println!("{} -> {:?} err={:?}", cfg.name, out.stats, out.error);
-        for f in &out.found {
-            println!("  FOUND {} cost {} : {}", f.violation.signature(), f.cost, f.violation.detail);
-            println!("    history: {:?}", f.labels);
+    let mut thorough = std::env::var("VERIF_TIER").map(|t| t == "thorough").unwrap_or(false);
+    let mut i = 2;
+    while i < args.len() {
+        if args[i] == "--tier" {
+            thorough = args.get(i + 1).map(|t| t == "thorough").unwrap_or(false);
+            i += 1;
         }
-        if args.get(3).map(|s| s == "-v").unwrap_or(false) {
-            for (l, log) in out.samples.iter().take(1) {
-                for line in log {
-                    println!("    | {}", line);
-                }
-            }
-        }
+        i += 1;
     }
+    std::process::exit(run_check(&args[1], thorough));
 }
